@@ -184,6 +184,40 @@ type c19Run struct {
 	mono   bool  // timestamps of increments never went backwards and no foreign history was loaded
 	lastT  int64
 	nOps   int
+	held   []c19Held // dump snapshots taken earlier (step 1 of DumpMetricsNow), not yet written
+}
+
+// c19Held is a ToMetricPB snapshot together with the counter's state when it was taken.
+type c19Held struct {
+	pbm *pb.Metric
+	v   int64
+	h   []c19Entry
+	at  string
+}
+
+// checkHeld: a snapshot taken for a dump describes the counter at one instant, whatever happened to
+// the live counter since (increments, roll-ups): written now and loaded again, its time series still
+// sums to its total and is what it was.
+func (r *c19Run) checkHeld(where string) {
+	for _, hd := range r.held {
+		raw, err := proto.Marshal(hd.pbm)
+		pb2 := &pb.Metric{}
+		if err == nil {
+			err = proto.Unmarshal(raw, pb2)
+		}
+		if err != nil {
+			r.c.Violate("C19/export/marshal", err.Error(), r.k)
+			return
+		}
+		var h []c19Entry
+		for _, e := range pb2.GetHistory() {
+			h = append(h, c19Entry{e.GetTimeUnixMilli(), e.GetDelta(), int32(e.GetRollUp())})
+		}
+		if pb2.GetValue() != hd.v || c19Show(h) != c19Show(hd.h) {
+			r.c.Violate("C19/export/snapshot-changed-after-taken", fmt.Sprintf("%s: dump snapshot taken at %s had value %d Σ history %d; written now it has value %d Σ history %d", where, hd.at, hd.v, c19Sum(hd.h), pb2.GetValue(), c19Sum(h)), r.k)
+			return
+		}
+	}
 }
 
 func (r *c19Run) compareState(where string) bool {
@@ -274,6 +308,7 @@ func c19RunCounter(c *core.Ctx, k c19Case) bool {
 				if !r.compareState(where + " roll-up") {
 					return true
 				}
+				r.checkHeld(where + " roll-up")
 				_, _, h2 := c19Snap(r.ctr)
 				for _, e := range h2 {
 					labels[e.L] = true
@@ -350,6 +385,12 @@ func c19RunCounter(c *core.Ctx, k c19Case) bool {
 			if !r.compareState(where) {
 				return true
 			}
+		case "hold":
+			pbm := metrics.ToMetricPB(r.ctr)
+			c.Model.Ask("ctr-tick %d 4", r.id) // Name, Type, Load, Type
+			v0, _, h0 := c19Snap(r.ctr)
+			r.held = append(r.held, c19Held{pbm, v0, h0, where})
+			c.Hist("reload", "snapshot-held-across-later-operations")
 		case "pbround":
 			pbm := metrics.ToMetricPB(r.ctr)
 			if k.TS {
@@ -446,6 +487,7 @@ func c19RunCounter(c *core.Ctx, k c19Case) bool {
 		}
 	}
 	r.compareState("end")
+	r.checkHeld("end")
 	// exported Load() is the value
 	if l := r.ctr.Load(); l != r.sumAdd {
 		c.Violate("C19/counter/value-ne-increments", fmt.Sprintf("Load() = %d, Σ increments %d", l, r.sumAdd), k)
@@ -845,6 +887,10 @@ func c19GenCounter(c *core.Ctx, n int, sorted bool, extras bool) c19Case {
 			if c.Rand.Intn(4) == 0 {
 				k.Ops = append(k.Ops, c19Op{K: "pbround"})
 			}
+		case 4:
+			if c.Rand.Intn(3) == 0 {
+				k.Ops = append(k.Ops, c19Op{K: "hold"})
+			}
 		}
 	}
 	k.Ops = append(k.Ops, c19Op{K: "force"}, c19Op{K: "add", Delta: 1, Age: 0})
@@ -974,7 +1020,7 @@ func init() {
 			c.Res.Rule = "counter histories: increments with ages from 0 ms to 70 days (bursts within one millisecond, ages next to the four roll-up thresholds), sorted and unsorted, zero and multi-megabyte deltas, roll-up forced at arbitrary operation counts and reached naturally after 1000 operations, op-only calls, DeltaBetween windows (random, at entry timestamps, reaching into the future), protobuf round trips, loads of arbitrary histories (unsorted, any label, negative deltas) followed by roll-ups and single doRollUp passes with arbitrary parameters; quota: 2–4 users with policy of self / other / none, 0–3 quotas, counters registered or not, traffic at the refusal boundary ±1 byte split over upload/download and over instants inside/outside the windows, isolation re-checks; dump/reload through the real files. Distinct = distinct (kind, size, total, roll-up count) resp. decision vectors."
 			c.Correspondence("ctr-*: pkg/metrics Counter (addWithTime, rollUp/doRollUp, DeltaBetween, loadCounterFromMetricPB, ToMetricPB/FromMetricPB, DumpMetricsNow/LoadMetricsFromDump) vs Mieru.Model.Counter with measured instants")
 			c.Correspondence("quota-check: pkg/protocol Session.checkQuota vs Mieru.Model.Quota.checkQuota")
-			c.Note("TODO(integrator): whole-system quota runs (refused session gets the quota status, nothing relayed; per-user byte accounting) need the in-memory network; not run here")
+			c.Note("whole-system quota and accounting runs are the extra stage c19_endpoint.go")
 			var cases []c19Case
 			if files, _ := filepath.Glob(filepath.Join(c.Corpus, "*.json")); len(files) > 0 {
 				sort.Strings(files)
